@@ -381,7 +381,7 @@ func c12Run(r *core.Run) {
 	r.Bounds["routes"] = len(cat)
 	r.Bounds["values_per_bind"] = c12Values
 	apis := []string{"Leaf.URLPath", "Router.URLPath", "Context.URLPath"}
-	extras := [][]string{nil, {"zz", "q"}, {"n", "q"}, {"u", "q", "e", "{x}"}, {"odd"}}
+	extras := [][]string{nil, {"zz", "q"}, {"n", "q"}, {"u", "q", "e", "{x}"}, {"odd"}, {"", "q"}, {"{}", "q", " ", "w"}} // unknown names incl. the empty one
 	type job struct {
 		cr  catRoute
 		idx []int
